@@ -81,7 +81,10 @@ def get_version(line: str) -> Version:
                 version = ml.Value
                 return version
 
-        except MatchError:
+        except (MatchError, ValueError):
+            # not an info line at all (MatchError), or an info line with an attribute that
+            # this version of the format does not have (ValueError), like the
+            # "info(keySignature,...)" at the start of a file without a version line
             pass
 
     return version
